@@ -319,16 +319,32 @@ def _pairs_case(res, case):
             res.check("planted_reported_zero_error", False,
                       "noise-free evidence: no candidate allele for a configuration of the planted structure", **desc)
             continue
+        # a planted copy showing a *silent* substitution / deletion at the site of a core variant: the major
+        # model only knows core variants, expects that copy to read as reference there, and carries an
+        # error of one copy per such (copy, site) - the true combination then cannot score zero
+        core_sites = {m.pos for a in g.alleles.values() for m in a.func_muts if m.op[:3] != "ins"}
+        conflicts = 0
+        for a, mi in copies:
+            core_here = {m.pos for m in g.alleles[a].func_muts if m.op[:3] != "ins"}
+            for m in g.alleles[a].minors[mi].neutral_muts:
+                if m.op[:3] != "ins" and m.pos in core_sites and m.pos not in core_here and \
+                        any(fm.pos == m.pos and cov[fm] > 0 for b in g.alleles.values() for fm in b.func_muts):
+                    conflicts += 1
         keyset = set()
         hit = False
+        hit_with_conflict_error = False
         for s in sols:
             alleles = tuple(sorted(a.major for a, c in s.solution.items() for _ in range(c)))
             keyset.add(alleles)
             if alleles == tuple(sorted(ms)) and not s.added and abs(s.score) <= TOL:
                 hit = True
+            if alleles == tuple(sorted(ms)) and not s.added and conflicts and abs(s.score - conflicts) <= TOL:
+                hit_with_conflict_error = True
         res.check("planted_reported_zero_error", hit,
                   "noise-free evidence: the planted combination is not reported with error zero",
-                  reported=[list(k) for k in list(keyset)[:4]], scores=[s.score for s in sols][:4], **desc)
+                  mech="silent-variant-at-core-site" if (not hit and hit_with_conflict_error) else None,
+                  reported=[list(k) for k in list(keyset)[:4]], scores=[s.score for s in sols][:4],
+                  silent_variants_at_core_sites=conflicts, **desc)
         # the cheap structural clauses on every reported combination
         gene, fcov, cns, ad, out = cap.calls[0]
         from aldy.gene import Mutation
@@ -344,8 +360,8 @@ def _pairs_case(res, case):
             bad = [str(m) for m in fm if (m in carried) == (m in novel)]
             res.check("core_variant_once", not bad, "observed core variant carried and novel, or neither",
                       variants=bad, combination=alleles, **desc)
-            res.check("within_gap", s.score <= TOL, "gap 0: a reported combination scores above the optimum 0",
-                      score=s.score, **desc)
+            res.check("within_gap", s.score <= TOL or (conflicts and s.score <= conflicts + TOL),
+                      "gap 0: a reported combination scores above the optimum 0", score=s.score, **desc)
         res.check("reported_once", len(keyset) == len(sols) or any(s.added for s in sols),
                   "combination reported twice", **desc)
         if len(set(ms)) > 1 or ms[0] != "1":
